@@ -183,6 +183,10 @@ def documented_predicates(ctx):
     Base = type("Base", (), {"method": lambda self: None})
     Sub = type("Sub", (Base,), {})
     Other = type("Other", (), {})
+    # a virtual subclass: issubclass says yes although the class is not in the MRO (ABC.register, __subclasshook__)
+    VMeta = type("VMeta", (type,), {"__subclasscheck__": lambda cls, sub: type.__subclasscheck__(cls, sub) or getattr(sub, "__name__", "") == "Virtual"})
+    VBase = VMeta("VBase", (), {})
+    Virtual = type("Virtual", (), {})
     ORDER = Record(LESS="LESS", MORE="MORE", SAME="SAME", NONE="NONE")
     en = A.order_enum(repo)
     to = A.typeorder_fn(repo)
@@ -206,8 +210,8 @@ def documented_predicates(ctx):
                 if not isinstance(r, Record) or r.order != want_order or bool(r.supertype) != want_super:
                     bad = bad or f"for {what} Exactly[Base] answers order={getattr(r, 'order', r)!r}, supertype={getattr(r, 'supertype', None)!r} (expected {want_order!r}, {want_super})"
         elif f.name == "StrictSubclass":
-            for what, arg, want in (("a subclass", Sub, True), ("the class itself", Base, False), ("an unrelated class", Other, False), ("a non-class", 5, False)):
-                r = run(arg, Base)
+            for what, arg, base, want in (("a subclass", Sub, Base, True), ("the class itself", Base, Base, False), ("an unrelated class", Other, Base, False), ("a non-class", 5, Base, False), ("a virtual subclass (issubclass says yes, not in the MRO)", Virtual, VBase, True)):
+                r = run(arg, base)
                 if bool(r) != want:
                     bad = bad or f"for {what} StrictSubclass[Base] answers {r!r} (expected {want})"
         else:
